@@ -67,24 +67,25 @@ type RandomizeScheduledAt struct {
 }
 
 func (r RandomizeScheduledAt) Mutate(p def.TaskUpdateParam) def.TaskUpdateParam {
-	diff := r.Max - r.Min
-	neg := false
-	if diff < 0 {
-		neg = true
-		diff = -diff
-	}
+	// Max - Min may not fit in int64, and the window may be empty (Min == Max).
+	diff := new(big.Int).Sub(big.NewInt(int64(r.Max)), big.NewInt(int64(r.Min)))
+	neg := diff.Sign() < 0
+	diff.Abs(diff)
 
-	randBigVal, err := rand.Int(randomReader, big.NewInt(int64(diff)))
-	if err != nil {
-		panic(err)
-	}
-
-	randVal := randBigVal.Int64()
-	if neg {
-		randVal = -randVal
+	offset := big.NewInt(int64(r.Min))
+	if diff.Sign() > 0 {
+		randBigVal, err := rand.Int(randomReader, diff)
+		if err != nil {
+			panic(err)
+		}
+		if neg {
+			randBigVal.Neg(randBigVal)
+		}
+		// offset lies between Min and Max, it fits in int64 again.
+		offset.Add(offset, randBigVal)
 	}
 
 	return p.Update(def.TaskUpdateParam{
-		ScheduledAt: option.Some(p.ScheduledAt.Value().Add(r.Min + time.Duration(randVal))),
+		ScheduledAt: option.Some(p.ScheduledAt.Value().Add(time.Duration(offset.Int64()))),
 	})
 }
